@@ -177,6 +177,8 @@ def capture(fn, *a, **kw):
     """Call fn; return (result, None) or (None, ExcInfo)."""
     try:
         return fn(*a, **kw), None
+    except HarnessError:
+        raise  # a defect of the harness is never attributed to the library
     except Exception as e:  # noqa: BLE001
         info = ExcInfo(e)
         del e
